@@ -13,8 +13,13 @@ import os, re, subprocess
 from ..common import MachineryError, REPO
 from .. import build, tlc, run, idb
 
+DECLS = "struct S {};\nstruct V {};\nnamespace ns { struct K {}; struct V {}; }\ntemplate<class A1, class A2> struct Pair {};\n"
 PRELUDE = r'''#include <type_traits>
 struct S {};
+struct V {};
+namespace ns { struct K {}; struct V {}; }
+template<class A1, class A2> struct Pair {};
+template<class Rt, class... Ar> using CF = Rt(Ar...) const;
 template<class T> using C = const T;
 template<class T> using P = T *;
 template<class T> using L = T &;
@@ -52,7 +57,7 @@ def same_assert(form, n, ns):
 
 
 def gen(k):
-    return "fn" if k.startswith("fn") else "arr" if k.startswith("arr") else k
+    return "fn" if (k.startswith("fn") or k.startswith("cfn")) else "arr" if k.startswith("arr") else k
 
 
 def feats(form, sh):
@@ -65,7 +70,7 @@ def feats(form, sh):
 def class_base_paren(text):
     """input predicate: the class name S is immediately followed by a parenthesised declarator that
     starts with & / && , or starts with * and is followed by an array bound"""
-    for m in re.finditer(r"\bS \(", text):
+    for m in re.finditer(r"(?:\bS|>) \(", text):
         i = m.end()
         if text.startswith("&", i):
             return True
@@ -84,9 +89,9 @@ def classes_of(form, sh, text=""):
     out = []
     for i, k in enumerate(sh[:-1]):
         nxt = sh[i + 1]
-        if k == "mptr" and not nxt.startswith("fn"):
+        if k == "mptr" and not (nxt.startswith("fn") or nxt.startswith("cfn")):
             out.append("C06-data-member-pointer")
-    if form == "fp" and sh[0].startswith("fn"):
+    if form == "fp" and (sh[0].startswith("fn") or sh[0].startswith("cfn")):
         out.append("C06-function-typed-parameter")
     if form in ("v", "td") and class_base_paren(text):
         out.append("C06-paren-declarator-class-base")
@@ -115,7 +120,7 @@ def run_check(ctx):
     tlc.must_ok(res)
     terms = tlc.read_dump(dump)
     terms.sort(key=lambda r: (r["s"], r["e"]))
-    cap = 4000 if tier == "quick" else 40000
+    cap = 6000 if tier == "quick" else 40000
     if len(terms) > cap:
         step = -(-len(terms) // cap)
         terms = terms[::step]
@@ -144,7 +149,7 @@ def run_check(ctx):
     def parse_group(g):
         counter[0] += 1
         fn = "p%05d.h" % counter[0]
-        open(os.path.join(work, fn), "w").write("struct S {};\n" + "\n".join(D[e] for e in g) + "\n")
+        open(os.path.join(work, fn), "w").write(DECLS + "\n".join(D[e] for e in g) + "\n")
         r = run.run_tool("parse_file", [fn], cwd=work, timeout=120)
         ok = r.rc == 0 and not r.timed_out
         if ok:
@@ -172,7 +177,7 @@ def run_check(ctx):
     def compare(view, texts):
         """texts: entity -> printed declaration text.  Returns entities whose printed text differs."""
         todo = [e for e in accepted if e in texts]
-        lines = ['#include "prelude.h"'] + [D[e] for e in todo] + ["namespace printed {", "using ::S;"]
+        lines = ['#include "prelude.h"'] + [D[e] for e in todo] + ["namespace printed {", "using ::S; using ::V; using ::Pair;"]
         owner = {}
         for e in todo:
             lines.append(texts[e])
@@ -190,7 +195,7 @@ def run_check(ctx):
         # the remaining entities must compile cleanly together
         if bad_ents:
             keep = [e for e in todo if e not in bad_ents]
-            lines2 = ['#include "prelude.h"'] + [D[e] for e in keep] + ["namespace printed {", "using ::S;"] + \
+            lines2 = ['#include "prelude.h"'] + [D[e] for e in keep] + ["namespace printed {", "using ::S; using ::V; using ::Pair;"] + \
                      [texts[e] for e in keep] + ["}"] + [same_assert(e[0], e[1], "printed") for e in keep]
             open(os.path.join(work, "cmp2_%s.cxx" % view), "w").write("\n".join(lines2) + "\n")
             b2, err2 = gxx_bad_lines(work, "cmp2_%s.cxx" % view)
@@ -218,7 +223,7 @@ def run_check(ctx):
     def interrogate_group(arg):
         gi, g = arg
         fn = "q%04d.h" % gi
-        open(os.path.join(work, fn), "w").write("struct S {};\n__begin_publish\n" + "\n".join(D[e] for e in g) + "\n__end_publish\n")
+        open(os.path.join(work, fn), "w").write(DECLS + "__begin_publish\n" + "\n".join(D[e] for e in g) + "\n__end_publish\n")
         r = run.run_tool("interrogate", ["-od", "q%04d.in" % gi, "-oc", "q%04d.cxx" % gi, "-module", "m", "-library",
                                          "l", "-c", "-fnames", fn], cwd=work, timeout=300)
         if r.rc != 0:
